@@ -301,42 +301,88 @@ theorem triangular_cdf_eq_one_iff (d : Triangular ℝ) (h1 : d.f_min ≤ d.f_mod
     · intro h0; exact absurd hb (not_lt.mpr h0)
   · norm_num; exact not_lt.mp hb
 
-/-- Triangular: the density is positive strictly inside `(min(), max())`, and wherever it is
-    positive the point lies in `(min(), max()]`; it is 0 outside `[min(), max()]`.
-    (At `x = min = mode` the model computes `0/0`, which is 0 over ℝ and NaN in IEEE.) -/
+/-- Triangular: the density is positive exactly on `(min(), max())` together with the point
+    `mode()` (which may be an endpoint: `pdf` tests `x == mode` first and returns `2/(max-min)`
+    there, so `mode = min` / `mode = max` is no longer `0/0`); in particular it is positive strictly
+    inside `(min(), max())`, wherever it is positive the point lies in `[min(), max()]`, and it is 0
+    outside `[min(), max()]`. -/
 theorem triangular_pdf_support (d : Triangular ℝ) (h1 : d.f_min ≤ d.f_mode) (h2 : d.f_mode ≤ d.f_max)
     (h3 : d.f_min ≠ d.f_max) (x : ℝ) :
     (Triangular.min d < x → x < Triangular.max d → 0 < Triangular.pdf d x) ∧
-    (0 < Triangular.pdf d x → Triangular.min d < x ∧ x ≤ Triangular.max d) ∧
+    (0 < Triangular.pdf d x ↔ (Triangular.min d < x ∧ x < Triangular.max d) ∨ x = d.f_mode) ∧
+    (0 < Triangular.pdf d x → Triangular.min d ≤ x ∧ x ≤ Triangular.max d) ∧
     (x < Triangular.min d ∨ Triangular.max d < x → Triangular.pdf d x = 0) := by
   have hab : d.f_min < d.f_max := lt_of_le_of_ne (h1.trans h2) h3
   have hba : 0 < d.f_max - d.f_min := by linarith
-  unfold Triangular.pdf Triangular.min Triangular.max
-  simp only []
-  refine ⟨?_, ?_, ?_⟩
+  have hiff : 0 < Triangular.pdf d x ↔ (d.f_min < x ∧ x < d.f_max) ∨ x = d.f_mode := by
+    unfold Triangular.pdf
+    rfun_norm
+    split_ifs with hE hA hB
+    · constructor
+      · intro _; exact Or.inr hE
+      · intro _; norm_num; exact hab
+    · have hca : 0 < d.f_mode - d.f_min := by linarith [hA.1, hA.2]
+      constructor
+      · intro hp
+        left
+        refine ⟨?_, by linarith [hA.2]⟩
+        by_contra hle
+        have hx : x = d.f_min := le_antisymm (not_lt.mp hle) hA.1
+        rw [hx] at hp; norm_num at hp
+      · rintro (⟨ha, _⟩ | he)
+        · have : 0 < x - d.f_min := by linarith
+          norm_num; positivity
+        · exact absurd he hE
+    · have hbc : 0 < d.f_max - d.f_mode := by linarith [hB.1, hB.2]
+      constructor
+      · intro hp
+        left
+        refine ⟨by linarith [hB.1], ?_⟩
+        by_contra hle
+        have hx : x = d.f_max := le_antisymm hB.2 (not_lt.mp hle)
+        rw [hx] at hp; norm_num at hp
+      · rintro (⟨_, hb⟩ | he)
+        · have : 0 < d.f_max - x := by linarith
+          norm_num; positivity
+        · exact absurd he hE
+    · constructor
+      · intro hp; norm_num at hp
+      · rintro (⟨ha, hb⟩ | he)
+        · exfalso
+          rcases lt_or_ge x d.f_mode with hlt | hge
+          · exact hA ⟨ha.le, hlt⟩
+          · exact hB ⟨lt_of_le_of_ne hge (Ne.symm hE), hb.le⟩
+        · exact absurd he hE
+  refine ⟨?_, ?_, ?_, ?_⟩
   · intro ha hb
-    by_cases hc : x ≤ d.f_mode
-    · rw [if_pos ⟨ha.le, hc⟩]
-      have : 0 < x - d.f_min := by linarith
-      have : 0 < d.f_mode - d.f_min := by linarith
-      norm_num; positivity
-    · push Not at hc
-      rw [if_neg (by intro h; linarith [h.2]), if_pos ⟨hc, hb.le⟩]
-      have : 0 < d.f_max - x := by linarith
-      have : 0 < d.f_max - d.f_mode := by linarith
-      norm_num; positivity
+    exact hiff.mpr (Or.inl ⟨ha, hb⟩)
+  · exact hiff
   · intro hp
-    split_ifs at hp with hA hB
-    · refine ⟨?_, hA.2.trans h2⟩
-      by_contra hle
-      have hx : x = d.f_min := le_antisymm (not_lt.mp hle) hA.1
-      rw [hx] at hp; norm_num at hp
-    · refine ⟨by linarith [hB.1], hB.2⟩
-    · norm_num at hp
+    unfold Triangular.min Triangular.max
+    rcases hiff.mp hp with ⟨ha, hb⟩ | he
+    · exact ⟨ha.le, hb.le⟩
+    · rw [he]; exact ⟨h1, h2⟩
   · intro hx
+    unfold Triangular.pdf Triangular.min Triangular.max at *
+    rfun_norm
     rcases hx with hx | hx
-    · rw [if_neg (by intro h; linarith [h.1]), if_neg (by intro h; linarith [h.1])]; norm_num
-    · rw [if_neg (by intro h; linarith [h.2]), if_neg (by intro h; linarith [h.2])]; norm_num
+    · rw [if_neg (by intro h; linarith), if_neg (by intro h; linarith [h.1]),
+        if_neg (by intro h; linarith [h.1])]; norm_num
+    · rw [if_neg (by intro h; linarith), if_neg (by intro h; linarith [h.2]),
+        if_neg (by intro h; linarith [h.2])]; norm_num
+
+/-- Triangular, formerly defective corner `mode = min` (resp. `mode = max`): the density at that
+    endpoint is `2/(max-min) > 0` (it was `0/0`). -/
+theorem triangular_pdf_pos_at_mode (d : Triangular ℝ) (h1 : d.f_min ≤ d.f_mode) (h2 : d.f_mode ≤ d.f_max)
+    (h3 : d.f_min ≠ d.f_max) :
+    Triangular.pdf d d.f_mode = 2 / (d.f_max - d.f_min) ∧ 0 < Triangular.pdf d d.f_mode := by
+  have hab : d.f_min < d.f_max := lt_of_le_of_ne (h1.trans h2) h3
+  have hba : 0 < d.f_max - d.f_min := by linarith
+  have e : Triangular.pdf d d.f_mode = 2 / (d.f_max - d.f_min) := by
+    unfold Triangular.pdf
+    rfun_norm
+    norm_num
+  exact ⟨e, by rw [e]; positivity⟩
 
 example : ∃ d : Triangular ℝ, d.f_min ≤ d.f_mode ∧ d.f_mode ≤ d.f_max ∧ d.f_min ≠ d.f_max :=
   ⟨⟨0, 1, 0⟩, by norm_num⟩
@@ -526,7 +572,7 @@ theorem geometric_cdf_bounds_partial (d : Geometric ℝ) (h0 : 0 < d.f_p) (h1 : 
     have he0 := Real.exp_pos (Real.log (1 + -d.f_p) * (x : ℝ))
     refine ⟨⟨fun h => by linarith, fun h => by omega⟩, by linarith, fun _ => ?_⟩
     have : (0:ℝ) < (1.0:ℝ) - d.f_p := by norm_num; exact h1
-    exact mul_pos (zpow_pos this _) h0
+    exact mul_pos (Real.rpow_pos_of_pos this _) h0
 
 example : ∃ d : Geometric ℝ, 0 < d.f_p ∧ d.f_p < 1 := ⟨⟨1 / 2⟩, by norm_num⟩
 
